@@ -210,8 +210,44 @@ func syncScenario(w *World, p *Plan, rec *Record) {
 		w.probe("c14-follow-up-gossip")
 		if (e1 == nil) != (e2 == nil) {
 			cause := "joiner-decides-differently-from-peer:" + label
+			// the known finding, told by numbers and not by the wording of the refusal: the two nodes' weight
+			// windows differ and the vertex's weight lies inside the window of the node that took it and below
+			// the window of the node that refused it
+			floor := func(s *Snap) uint64 {
+				if s == nil || s.Throughput > s.Weight {
+					return 0
+				}
+				return s.Weight - s.Throughput
+			}
 			windowDiffers := w1 != nil && w2 != nil && (w1.Weight != w2.Weight || w1.Throughput != w2.Throughput)
-			weightRefusal := (e1 != nil && containsStr(e1.Error(), "minimal weight")) || (e2 != nil && containsStr(e2.Error(), "minimal weight"))
+			taker, refuser := w1, w2
+			if e1 != nil {
+				taker, refuser = w2, w1
+			}
+			// the rule is applied to the vertex and to the tips it names (they are validated on the way)
+			cands := []uint64{v.Weight}
+			for _, ph := range declParents(v) {
+				if refuser != nil {
+					if pv := refuser.get(ph); pv != nil {
+						cands = append(cands, pv.V.Weight)
+					}
+				}
+			}
+			// the window moves while the call validates the tips one after the other: the refuser's state after
+			// the call counts as well
+			refAfter := w.snapshot(j)
+			if e1 != nil {
+				refAfter = w.snapshot(src)
+			}
+			_ = taker
+			numeric := false
+			for _, c := range cands {
+				if c < floor(refuser) || c < floor(refAfter) {
+					numeric = true
+				}
+			}
+			said := (e1 != nil && containsStr(e1.Error(), "minimal weight")) || (e2 != nil && containsStr(e2.Error(), "minimal weight"))
+			weightRefusal := windowDiffers && (numeric || said)
 			if weightRefusal && windowDiffers {
 				// the weight/throughput window is history dependent and is not part of what a sync transfers (known finding)
 				cause = "minimal-weight-window-differs-after-load"
